@@ -246,6 +246,8 @@ class Assembled:
     plain: str = ''                         # the same text without any splice (rules applied): the native rendering
     binds: Dict[str, str] = field(default_factory=dict)
     selfcheck_ok: bool = True
+    assumed: List[dict] = field(default_factory=list)   # @assume_body contracts
+    clauses_by_fn: Dict[str, int] = field(default_factory=dict)
 
 
 class _Builder:
@@ -335,6 +337,8 @@ def assemble(sc: Sidecar, mutate=None, canary: Optional[str] = None, plain_only:
     drops, functions = [], []
     splice_count = clause_count = 0
     plain_parts = []
+    assumed = []        # contracts assumed via @assume_body (trusted border), per function
+    clauses_by_fn = {}
     native_over = {}    # index into plain_parts -> text for the NATIVE rendering (std derives kept)
     all_binds = {}
     selfcheck_ok = True
@@ -430,6 +434,8 @@ def assemble(sc: Sidecar, mutate=None, canary: Optional[str] = None, plain_only:
                 rewritten = new
         functions.append({'item': ex.path, 'file': ex.file, 'lines': [first_line, src.line_of(item.end)],
                           'sha256': hashlib.sha256(text.encode()).hexdigest()})
+        if ex.assume_body:
+            functions[-1]['mode'] = 'signature only: body dropped, contract ASSUMED (not an obligation)' + (', proved in unit %s' % ex.proved_in if ex.proved_in else '')
         plain_parts.append(rewritten + '\n\n')
         if plain_type_edits is not None and mutate is None and ex.vis is None and not ex.dropbounds and not plain_only:
             native_over[len(plain_parts) - 1] = R.apply_edits(text, plain_type_edits)[0] + '\n\n'
@@ -573,6 +579,7 @@ def assemble(sc: Sidecar, mutate=None, canary: Optional[str] = None, plain_only:
                     if not c.block:
                         ins.append((c.body_end, ' }', 'closure#%d' % o, sline, False))
                     clause_count += 1
+                    clauses_by_fn[ex.path] = clauses_by_fn.get(ex.path, 0) + 1
         else:
             if ex.splices:
                 raise SidecarError('%s: splices on a non-function item' % ex.path)
@@ -610,8 +617,14 @@ def assemble(sc: Sidecar, mutate=None, canary: Optional[str] = None, plain_only:
                 b.add(rewritten[pos:off], src_origin(pos))
                 pos = off
             if own_lines:
-                splice_count += 1
-                clause_count += _count_clauses(t)
+                if ex.assume_body:
+                    # the clauses of an ASSUMED contract are assumptions, not obligations: never counted as discharged
+                    assumed.append({'fn': ex.path, 'file': ex.file, 'clauses': _count_clauses(t), 'proved_in': ex.proved_in or '',
+                                    'text': ' '.join(re.sub(r'//#.*', '', t).split())[:600]})
+                else:
+                    splice_count += 1
+                    clause_count += _count_clauses(t)
+                    clauses_by_fn[ex.path] = clauses_by_fn.get(ex.path, 0) + _count_clauses(t)
                 pre = '' if (pos == 0 or rewritten[pos - 1] == '\n') else '\n'
                 b.add(pre + t, (lambda block, sline, pre, exp: lambda k: LineOrigin('splice', sc.path, sline + k - (1 if pre else 0), fn=exp, block=block))(block, sline, pre, ex.path))
             else:
@@ -622,7 +635,7 @@ def assemble(sc: Sidecar, mutate=None, canary: Optional[str] = None, plain_only:
     b.add('\n} // verus!\nfn main() {}\n', lambda k: LineOrigin('frame', sc.path, 0))
     text, origins = b.finish()
     sources = {f: hashlib.sha256(s.text.encode()).hexdigest() for f, s in cache.items()}
-    asm = Assembled(text, origins, sources, drops, functions, splice_count, clause_count,
+    asm = Assembled(text, origins, sources, drops, functions, splice_count, clause_count, assumed=assumed, clauses_by_fn=clauses_by_fn,
                     plain=''.join(native_over.get(i, t) for i, t in enumerate(plain_parts)), binds=all_binds)
     # ---- self-check (3.3): removing every line that came from a splice/raw/frame and undoing nothing
     # else must give exactly the rule-rewritten token stream of the extracted items
